@@ -6,6 +6,9 @@ from pyvc.contract import REGISTRY
 from pyvc.run import verify_case
 import pyvc.natives
 import pyvc.pandas_model
+import contracts as _c
+if os.environ.get('NEW_CONTRACTS'):
+    _c.__path__.append(os.environ['NEW_CONTRACTS'])
 mods = sys.argv[1].split(',')
 for m in mods:
     importlib.import_module('contracts.' + m)
